@@ -447,6 +447,20 @@ func genC18(g *Gen) {
 	g.setMode(0)
 	g.powSignGrid(0.06)
 	g.powPaddedIntGrid(0.1)
+	// the plain form Pow under every DefaultRoundingMode on the cases where the mode decides the result exactly: the
+	// reciprocal (y = -1) and powers of ten that land below the smallest exponent
+	g.gridRun(16, 0.04, func(i int) {
+		var x, y d128.Decimal
+		if i < 10 {
+			x = mk(i%2 == 1, big.NewInt(int64([]int{3, 6, 7, 9, 11}[i/2])), g.r.Intn(5)-2)
+			y = g.cohort(mk(true, big.NewInt(1), 0))
+		} else {
+			kn := [][2]int{{-1, 6177}, {-3, 2059}, {-2059, 3}, {-2, 3089}, {-3089, 2}, {-1, 6180}}[i-10]
+			x = mk(false, big.NewInt(1), kn[0])
+			y = mk(false, big.NewInt(int64(kn[1])), 0)
+		}
+		g.allDefaultModes("Pow", x, y)
+	})
 	// exponents that only LOOK like the shortcut values when one 64-bit word of their coefficient is inspected:
 	// (h * 2^64 + l) * 10^e with l = 5, e = -1 (not one half), l = 1 (not one), l = 0; powers of ten and other bases
 	{
